@@ -304,16 +304,20 @@ def bodyEnd {M} (cfg : Cfg M) (early : Option BodyEnd) (fin : ScanEnd) : BodyEnd
     | .malformed atEOF => if cfg.dropUnterminated && atEOF then .interrupted else .failed .malformed
     | .stillOpen => .streaming
 
+/-- what `processStream` returns (and whether it sent the synthetic error) once its loop is over -/
+def mkBody {M} (cfg : Cfg M) (a : Acc M) (e : BodyEnd) : BodyOut M :=
+  match e with
+  | .interrupted =>
+    { msgs := a.msgs, lastID := a.lastID, hint := a.hint, fin := .interrupted,
+      synthetic := a.lastID.isEmpty && cfg.forCall }
+  | .streaming => { msgs := a.msgs, lastID := a.lastID, hint := a.hint, fin := .streaming, synthetic := false }
+  | e => { msgs := a.msgs, lastID := [], hint := 0, fin := e, synthetic := false }
+
 /-- `processStream` on one response body; `resume` is the initial value of `lastEventID`
 (`prevLastEventID` once the cursor is kept, `""` before) -/
 def processBody {M} (cfg : Cfg M) (resume : Bytes) (out : ScanOut) : BodyOut M :=
   let r := processItems cfg { lastID := resume } out.items
-  match bodyEnd cfg r.2 out.fin with
-  | .interrupted =>
-    { msgs := r.1.msgs, lastID := r.1.lastID, hint := r.1.hint, fin := .interrupted,
-      synthetic := r.1.lastID.isEmpty && cfg.forCall }
-  | .streaming => { msgs := r.1.msgs, lastID := r.1.lastID, hint := r.1.hint, fin := .streaming, synthetic := false }
-  | e => { msgs := r.1.msgs, lastID := [], hint := 0, fin := e, synthetic := false }
+  mkBody cfg r.1 (bodyEnd cfg r.2 out.fin)
 
 /-! ### `handleSSE` / `connectSSE` / `checkResponse` -/
 
